@@ -30,7 +30,7 @@ pub fn mkviol(prop: &str, i: usize, d: &Decl, entry: &str, input: String, expect
 /// run `f` for every subject accepted by `filter`, in parallel, merging the per-subject reports
 pub fn for_subjects(cx: &Ctx, prop: &str, filter: impl Fn(&Decl) -> bool + Sync, f: impl Fn(usize, &Decl, &dyn Subject, &mut Report) + Sync) -> Report {
     let mut rep = Report::new(prop, cx.tier.name());
-    let idxs: Vec<usize> = (0..cx.subs.len()).filter(|i| cx.only.map(|o| o == *i).unwrap_or(true) && filter(&cx.subs[*i].decl)).collect();
+    let idxs: Vec<usize> = (0..cx.subs.len()).filter(|i| cx.only.map(|o| o == *i).unwrap_or(true) && !cx.subjects[*i].excluded() && filter(&cx.subs[*i].decl)).collect();
     let parts: Vec<Report> = idxs
         .par_iter()
         .map(|&i| {
@@ -111,6 +111,33 @@ pub fn c01(cx: &Ctx) -> Report {
                 }
             }
         }
+        // string subjects: every special character (whitespace, non-1:1 case mappings, titlecase, ...; thorough:
+        // additionally every Unicode scalar on every 64th subject) in 14 contexts, against REF
+        if d.family() == Family::Str {
+            let all_scalars = tier == Tier::Thorough && i % 64 == 0;
+            let mut sweep = |c: char, r: &mut Report| {
+                for t in unicode_contexts(c) {
+                    let raw = Val::S(t);
+                    let exp = refsem::construct(d, &raw);
+                    let obs = s.construct(&raw);
+                    r.evaluations += 1;
+                    r.transitions += 1;
+                    if let Err(class) = agrees_verdict(&exp, &obs) {
+                        r.violate(mkviol("C01", i, d, if d.has_validation() { "try_new" } else { "new" }, raw.show(), expected_show(&exp), obs.show(), class));
+                    }
+                }
+            };
+            if all_scalars {
+                for c in '\0'..=char::MAX {
+                    sweep(c, r);
+                }
+            } else {
+                for c in special_chars_cached() {
+                    sweep(*c, r);
+                }
+            }
+            r.hist("unicode-context-sweeps", 1);
+        }
         // compile-time evaluated table (const_fn): rustc's const evaluator must agree too
         for (inp, out) in s.const_table() {
             let exp = refsem::construct(d, &inp);
@@ -159,7 +186,7 @@ pub fn c01(cx: &Ctx) -> Report {
 /// run `f` on all 2^32 f32 bit patterns for up to `max_subjects` f32 subjects (spread over the list)
 pub fn f32_full_sweep(cx: &Ctx, prop: &str, max_subjects: usize, f: impl Fn(usize, &Decl, &dyn Subject, u32, &mut Report) + Sync) -> Report {
     let mut rep = Report::new(prop, cx.tier.name());
-    let all: Vec<usize> = (0..cx.subs.len()).filter(|i| cx.only.map(|o| o == *i).unwrap_or(true) && cx.subs[*i].decl.inner == Inner::F32).collect();
+    let all: Vec<usize> = (0..cx.subs.len()).filter(|i| cx.only.map(|o| o == *i).unwrap_or(true) && !cx.subjects[*i].excluded() && cx.subs[*i].decl.inner == Inner::F32).collect();
     if all.is_empty() {
         return rep;
     }
@@ -755,6 +782,12 @@ pub fn special_chars() -> Vec<char> {
             v.push(c);
             continue;
         }
+        // the Lowercase / Uppercase *property* disagrees with the case *mapping* (titlecase letters such as 'ǅ'
+        // are neither, yet both mappings change them): shortcuts keyed on is_uppercase()/is_lowercase() go wrong
+        if (lo[0] != c && !c.is_uppercase()) || (up[0] != c && !c.is_lowercase()) {
+            v.push(c);
+            continue;
+        }
         // case mappings that do not round trip are the interesting ones for canonicity
         let back: Vec<char> = lo[0].to_uppercase().collect();
         let back2: Vec<char> = up[0].to_lowercase().collect();
@@ -763,6 +796,11 @@ pub fn special_chars() -> Vec<char> {
         }
     }
     v
+}
+
+pub fn special_chars_cached() -> &'static Vec<char> {
+    static CELL: std::sync::OnceLock<Vec<char>> = std::sync::OnceLock::new();
+    CELL.get_or_init(special_chars)
 }
 
 pub fn unicode_contexts(c: char) -> Vec<String> {
